@@ -160,6 +160,7 @@ class Kernel:
         self.get_scopes: dict[int, Any] = {}            # label of a suspended async lookup -> its cancel scope
         self.ctxtd_fn: Any = None
         self.fns: dict[int, Any] = {}
+        self.cb_runs: dict[tuple[int, int], int] = {}
         self.comp_ctx: dict[int, int] = {}              # id of a component's own context -> the context of its block
         self.comp_keep: list[Any] = []
         self.freed_ids: set[int] = set()                # addresses of contexts that were dropped (`forget`)
@@ -240,6 +241,11 @@ class Kernel:
         def run(args: tuple[Any, ...]) -> None:
             ctx = kern.ctxs[cid]
             arg = "-" if not spec["pass"] else exc_name(args[0]) if args else "missing"
+            n = kern.cb_runs[(cid, spec["id"])] = kern.cb_runs.get((cid, spec["id"]), 0) + 1
+            if n > 3:
+                # invoked again and again: say so, and stop feeding the loop (no body, no registrations)
+                kern.tdlog.append(f"td+ {spec['id']} RUNAWAY")
+                return
             kern.tdlog.append(f"td+ {spec['id']} {arg}")
             outs: list[str] = []
             for b in spec["body"]:
